@@ -25,6 +25,8 @@ def strip(v):
 
 
 class LayerPaths:
+    sbom_path_fn = 'libcnb::sbom::cnb_sbom_path'   # overridden by rules after role discovery
+
     def __init__(self, is_ld, is_ln, dir_values=()):
         self.is_ld = is_ld
         self.is_ln = is_ln
@@ -57,7 +59,7 @@ class LayerPaths:
                 if ca is not None and ca[0] in ('DIR', 'SUB', 'CHILD'):
                     return ('SUB', ca, _part(b))
                 return None
-            if name == 'libcnb::sbom::cnb_sbom_path' and len(args) == 3:
+            if name == LayerPaths.sbom_path_fn and len(args) == 3:
                 if self.classify(args[1], depth + 1) == ('LD',) and self.is_ln(strip(args[2])):
                     return ('SBOM', args[0])
                 return None
